@@ -69,6 +69,9 @@ def oracle(chk, c, o):
     n += 1
     if abs((o["stored"] + o["leaked"]) / o["injected"] - 1) > 1e-6:
         bad({"stored": o["stored"], "left_through_far_field": o["leaked"], "injected": o["injected"]}, "heat stored plus heat that crossed the far-field boundary equals the heat injected (1e-6 relative)")
+    elif abs(o["stored"] / o["injected"] - 1) > 1e-6 and o.get("system_size") != o["n_cells"]:
+        bad({"cells_in_the_table": o["n_cells"], "unknowns_in_the_solved_system": o.get("system_size"), "stored": o["stored"], "injected": o["injected"]},
+            "the response stores exactly the heat injected (1e-6 relative): the solved system covers the radius out to the 10 m far field")
     elif abs(o["stored"] / o["injected"] - 1) > 1e-6:
         # the scheme conserves heat, but the fixed-temperature cell at 10 m lets some of it out of the domain
         bad({"stored": o["stored"], "left_through_far_field": o["leaked"], "injected": o["injected"], "relative": o["stored"] / o["injected"] - 1},
